@@ -34,7 +34,8 @@ var focusKinds = map[string][]string{
 	"lunar":   {"lunar", "lunar", "ltime", "lunar_next", "tao", "foto"},
 	"solar":   {"solar2lunar", "solar2lunar", "eightchar", "solar", "jd2solar"},
 	"holiday": {"holiday", "holidays_ym", "holidays_year", "holidays_target", "solar_next", "salary"},
-	"nav":     {"week", "smonth", "season", "halfyear", "syear"},
+	"nav":     {"week", "smonth", "season", "halfyear", "syear", "week0", "smonth0", "season0", "halfyear0", "syear0", "week0", "smonth0"},
+	"jd":      {"jd2solar", "jd2solar", "jd2solar", "solar", "solar_next"},
 	"fortune": {"eightchar", "yun", "bazi"},
 }
 
@@ -149,9 +150,11 @@ func (g *c09gen) lunarArgs() []int {
 func (g *c09gen) baseOp() ops.Op {
 	r := g.r
 	kinds := []string{"solar2lunar", "lunar", "lunar_next", "lyear", "lyear_next", "lmonth_next", "ltime", "tao", "foto", "eightchar", "yun",
-		"bazi", "holiday", "holidays_ym", "holidays_year", "holidays_target", "solar_next", "salary", "week", "smonth", "season", "halfyear", "syear", "jd2solar", "solar", "lmonth"}
+		"bazi", "holiday", "holidays_ym", "holidays_year", "holidays_target", "solar_next", "salary", "week", "smonth", "season", "halfyear", "syear", "jd2solar", "solar", "lmonth",
+		"week0", "smonth0", "season0", "halfyear0", "syear0"}
 	w := []int{22, 16, 6, 9, 3, 8, 3, 3, 3, 5, 3,
-		2, 2, 2, 2, 2, 4, 2, 2, 1, 1, 1, 1, 3, 3, 3}
+		2, 2, 2, 2, 2, 4, 2, 2, 1, 1, 1, 1, 3, 3, 3,
+		2, 1, 1, 1, 1}
 	k := kinds[r.Weighted(w)]
 	if fk, ok := focusKinds[g.focus]; ok && r.Chance(0.65) {
 		k = fk[r.Intn(len(fk))]
@@ -244,13 +247,38 @@ func (g *c09gen) baseOp() ops.Op {
 		return ops.Op{K: k, A: []int{y, m, d, r.Intn(7), r.Range(-5, 5), r.Intn(2)}}
 	case "smonth", "season", "halfyear":
 		return ops.Op{K: k, A: []int{g.anyYear(), r.Range(1, 12), r.Range(-14, 14)}}
+	case "week0":
+		y, m, d := g.solarYmd(g.anyYear())
+		return ops.Op{K: k, A: []int{y, m, d, r.Intn(7)}}
+	case "smonth0", "season0", "halfyear0":
+		return ops.Op{K: k, A: []int{g.anyYear(), r.Range(1, 12)}}
+	case "syear0":
+		return ops.Op{K: k, A: []int{g.anyYear()}}
 	case "syear":
 		return ops.Op{K: k, A: []int{g.anyYear(), r.Range(-3, 3)}}
 	case "jd2solar":
 		// a Julian day inside a hot year
 		y := g.anyYear()
-		jd := 1721425.5 + float64(y-1)*365.2425 + float64(r.Intn(365)) + float64(r.Intn(86400))/86400
-		return ops.Op{K: k, F: []string{fmt.Sprintf("%.6f", jd)}}
+		day := 1721425 + int(float64(y-1)*365.2425) + r.Intn(365)
+		if g.focus == "jd" {
+			// few distinct day numbers, so that several conversions fall on the same day
+			day = 1721425 + int(float64(g.hotYear()-1)*365.2425) + 100 + r.Intn(3)
+		}
+		// fraction of the day counted from noon; civil midnight is at .5 - boundary values around it and around noon
+		frac := float64(r.Intn(86400)) / 86400
+		switch r.Weighted([]int{50, 10, 10, 10, 10, 10}) {
+		case 1:
+			frac = 0.5 - 3e-6 // within half a second before civil midnight: seconds round up to 60
+		case 2:
+			frac = 0.5 - 8e-6
+		case 3:
+			frac = 0.5
+		case 4:
+			frac = 0.5 + 2e-6
+		case 5:
+			frac = 0 // exactly noon
+		}
+		return ops.Op{K: k, F: []string{fmt.Sprintf("%d%s", day, fmt.Sprintf("%.7f", frac)[1:])}}
 	}
 	return ops.Op{K: "lyear", A: []int{g.anyYear()}}
 }
@@ -288,6 +316,13 @@ func (g *c09gen) invalidOp() ops.Op {
 		{K: "holiday", S: []string{""}},
 		{K: "holiday", S: []string{"20"}},
 		{K: "week", A: []int{y, 13, 5, 1, 3, 0}},
+		{K: "week0", A: []int{y, 13, 1, 0}},
+		{K: "week0", A: []int{y, 0, 1, 1}},
+		{K: "week0", A: []int{y, 2, 30, 1}},
+		{K: "smonth0", A: []int{y, 13}},
+		{K: "smonth0", A: []int{y, 0}},
+		{K: "season0", A: []int{y, 13}},
+		{K: "halfyear0", A: []int{y, 14}},
 	}
 	return cands[r.Intn(len(cands))]
 }
@@ -354,7 +389,7 @@ func C09(seed uint64, run int) *spec.Spec {
 	if g.wide {
 		g.focus = r.PickS([]string{"lyear", "lyear", "lmonth", "lunar"})
 	} else if r.Chance(0.5) {
-		g.focus = r.PickS([]string{"lmonth", "lyear", "lunar", "solar", "holiday", "nav", "fortune", "lmonth", "lyear", "lunar", "solar"})
+		g.focus = r.PickS([]string{"lmonth", "lyear", "lunar", "solar", "holiday", "nav", "fortune", "jd", "lmonth", "lyear", "lunar", "solar", "nav"})
 		if r.Chance(0.6) {
 			g.hot = g.hot[:1]
 		}
